@@ -29,4 +29,5 @@ def run(chk, db):
     rules(chk, db)
     chk.explanation = (
         'Guard-to-error rules and framing rules on the symbolic paths of the table decoder for every probe table; status discipline on the '
-        'table and bounded-reader functions so an inner error is never masked by the frame; the frame itself is decided by the C16 rules.')
+        'table and bounded-reader functions so an inner error is never masked by the frame; the frame itself is decided by the C16 rules.'
+        " The table decoder is analysed from one root (ReadPayload) with its helpers inlined and per-entry readers recognised by signature; the re-seating assignment of every entry reader is executed abstractly for its value type (duplicate detection depends on the entry becoming non-empty); the stream reader's Skip must skip all surplus bytes or fail.")
